@@ -358,6 +358,66 @@ pub fn needs_wakeup_truth_table(r: &mut Report) {
     }
 }
 
+/// IORING_SETUP_CLAMP with an oversize request: the kernel clamps the queue (to 32768 entries); the library must
+/// hold the KERNEL's mask.  Every slot address handed out while the free-running tail runs through two full
+/// rings (+2) must lie inside the mapped SQE array, and every NOP must come back with its user_data.
+pub fn clamp_case(entries: u32, r: &mut Report) {
+    r.eval();
+    r.nontrivial_unique();
+    let clamp = P::IORING_SETUP_CLAMP;
+    let cj = json!({"phase": "ringflags", "scenario": "clamp", "op": "real-ring", "ring": entries, "flags": clamp.bits(), "flags_name": "CLAMP"});
+    set_case(&cj.to_string());
+    unsafe { libc::alarm(60) };
+    let res = (|| -> Result<(), (String, String)> {
+        let kp = crate::ops_raw::raw_params(entries, clamp.bits(), 0).ok_or(("skip".to_string(), "raw set-up refused".to_string()))?;
+        let mut ring = setup_io_uring(entries, clamp, 0, 0).map_err(|e| ("skip".to_string(), format!("{e}")))?;
+        let k = kp.sq_entries;
+        let maps = crate::ops_raw::uring_maps();
+        let sq = maps.iter().find(|m| m.2 == 0x1000_0000).ok_or(("skip".to_string(), "SQE mapping not found".to_string()))?;
+        let (lo, hi) = (sq.0, sq.0 + k as u64 * 64);
+        let total = 2 * k as u64 + 2;
+        let mut ud = 1u64;
+        while ud <= total {
+            let n = (total - ud + 1).min(1024) as u32;
+            for i in 0..n {
+                let slot = ring.get_next_sqe_slot().ok_or(("slot-refused".to_string(), format!("no slot for entry {} with nothing in flight", ud + i as u64)))?;
+                let a = slot as u64;
+                if a < lo || a + 64 > hi {
+                    return Err((
+                        "sq-mask-differs-from-kernel".into(),
+                        format!("requested {entries} entries with CLAMP, the kernel made {k}: for the {}th entry get_next_sqe_slot() hands out {a:#x}, outside the mapped SQE array [{lo:#x}, {hi:#x}) — the library's mask is not the kernel's ({})", ud + i as u64, k - 1),
+                    ));
+                }
+                unsafe { slot.write(nop(ud + i as u64)) };
+            }
+            ring.flush_submission_queue();
+            let got_n = io_uring_enter(ring.fd, n, n, IoUringEnterFlags::IORING_ENTER_GETEVENTS).map_err(|e| ("enter-failed".to_string(), format!("{e}")))?;
+            if got_n != n as usize {
+                return Err(("entries-lost".into(), format!("io_uring_enter(to_submit={n}) = {got_n} at entry {ud}")));
+            }
+            for i in 0..n {
+                match ring.get_next_cqe() {
+                    Some(c) if c.0.user_data == ud + i as u64 && c.0.res == 0 => {}
+                    Some(c) => return Err(("consumed-unflushed-entry".into(), format!("entry {} due, reaped user_data {} res {}", ud + i as u64, c.0.user_data, c.0.res))),
+                    None => return Err(("entries-lost".into(), format!("entry {} never completed", ud + i as u64))),
+                }
+            }
+            ud += n as u64;
+        }
+        Ok(())
+    })();
+    unsafe { libc::alarm(0) };
+    clear_case();
+    match res {
+        Ok(()) => r.outcome("clamp:two-full-rings-handed-over-inside-the-mapping"),
+        Err((k, _)) if k == "skip" => r.outcome("clamp:set-up-refused(skipped)"),
+        Err((k, d)) => {
+            let key = if k == "sq-mask-differs-from-kernel" { "C17:setup:sq-mask-differs-from-kernel".to_string() } else { format!("C17:real-ring:{k}") };
+            r.violation(&key, d, cj)
+        }
+    }
+}
+
 pub fn held_cases(th: bool) -> Vec<(u32, u32, u32, u32)> {
     let (s, c) = (P::IORING_SETUP_SQE128.bits(), P::IORING_SETUP_CQE32.bits());
     let sizes: &[u32] = if th { &[1, 2, 3, 4, 8] } else { &[1, 2, 4] };
@@ -449,7 +509,7 @@ pub fn run(args: &Args) -> Report {
     }
     {
         let cases = held_cases(th);
-        planned += cases.len() as u64 + 8;
+        planned += cases.len() as u64 + 8 + 4;
         items.push(isolated("held-entry", move || {
             let mut r = Report::new();
             crate::ops::install_watchdog();
@@ -457,6 +517,9 @@ pub fn run(args: &Args) -> Report {
                 held_case(e, f, x, t, &mut r, false);
             }
             needs_wakeup_truth_table(&mut r);
+            for e in [32769u32, 40000, 65536, 100000] {
+                clamp_case(e, &mut r);
+            }
             r
         }));
     }
